@@ -7,6 +7,7 @@ of the stable variants = position in `pushed`), and what is not yet in the heap 
 or on the stack — nothing is lost or duplicated between Enqueue and the heap.
 -/
 import GoaktVerif.Lemmas.C04.IntakeMain
+import GoaktVerif.Lemmas.C04.HeapCorrect
 
 namespace GoaktVerif.C04.IntakeInv
 open GoaktVerif.Model.C04 GoaktVerif.Model.C04.Intake
@@ -16,18 +17,26 @@ variable {k : Conf}
 abbrev Cf (k : Conf) := Cfg (algo k)
 
 inductive IEv where
-  | push (v : Nat)
-  | ins (v : Nat)
+  | push (v : Nat)     -- successful CAS:head of Enqueue(v)
+  | ins (v : Nat)      -- v moved from the batch into the heap
+  | pop (v : Nat)      -- v popped from the heap (the value this Dequeue will return)
 
-def evI (s : Sh) : PC → List IEv
+/-- the pop performed by the consumer-side code after the intake has been moved into the heap -/
+def popEv (k : Conf) (s : Sh) : List IEv :=
+  match Heap.pop k.ltItem s.heap with
+  | some (x, _) => [.pop x.1]
+  | none => []
+
+def evI (k : Conf) (s : Sh) : PC → List IEv
   | .push3 v old => if s.head = old then [.push v] else []
-  | .deq6 n _ => [.ins n]
+  | .deq2 => if s.head = none then popEv k s else []
+  | .deq6 n nxt => .ins n :: (if nxt = none then popEv k (s.moveToHeap k n) else [])
   | _ => []
 
 def stepEvI (c : Cf k) (tid : Nat) : List IEv :=
   match c.threads[tid]? with
   | some t => match t.pc with
-    | some pc => evI c.sh pc
+    | some pc => evI k c.sh pc
     | none => []
   | none => []
 
@@ -45,6 +54,19 @@ def insertedOf : List IEv → List Nat
   | .ins v :: es => v :: insertedOf es
   | _ :: es => insertedOf es
 
+def poppedOf : List IEv → List Nat
+  | [] => []
+  | .pop v :: es => v :: poppedOf es
+  | _ :: es => poppedOf es
+
+theorem poppedOf_append (a b : List IEv) : poppedOf (a ++ b) = poppedOf a ++ poppedOf b := by
+  induction a with
+  | nil => rfl
+  | cons e es ih => cases e <;> simp [poppedOf, ih]
+
+theorem popEv_facts (k : Conf) (s : Sh) : pushedOf (popEv k s) = [] ∧ insertedOf (popEv k s) = [] := by
+  unfold popEv; split <;> exact ⟨rfl, rfl⟩
+
 theorem pushedOf_append (a b : List IEv) : pushedOf (a ++ b) = pushedOf a ++ pushedOf b := by
   induction a with
   | nil => rfl
@@ -58,13 +80,60 @@ theorem insertedOf_append (a b : List IEv) : insertedOf (a ++ b) = insertedOf a 
 structure TRI (k : Conf) (s : Sh) (evs : List IEv) : Prop where
   cons : insertedOf evs ++ s.batch.drop s.done ++ s.stack.reverse = pushedOf evs
   seq : k.stable = true → s.seq = (insertedOf evs).length
-
-theorem afterDrain_seq (s : Sh) : (afterDrain k s).1.seq = s.seq := by
-  unfold afterDrain; split <;> rfl
+  /-- what is in the heap, together with what has been popped, is exactly what has been inserted -/
+  heap : (s.heap.map Prod.fst ++ poppedOf evs).Perm (insertedOf evs)
 
 theorem tri_same {s s' : Sh} {evs : List IEv} (h : TRI k s evs) (h3 : s'.stack = s.stack) (h4 : s'.batch = s.batch)
-    (h5 : s'.done = s.done) (h6 : s'.seq = s.seq) : TRI k s' evs :=
-  ⟨by rw [h3, h4, h5]; exact h.cons, by rw [h6]; exact h.seq⟩
+    (h5 : s'.done = s.done) (h6 : s'.seq = s.seq) (h7 : s'.heap = s.heap) : TRI k s' evs :=
+  ⟨by rw [h3, h4, h5]; exact h.cons, by rw [h6]; exact h.seq, by rw [h7]; exact h.heap⟩
+
+/-- the pop (or nil answer) after the intake has been moved into the heap -/
+theorem tri_afterDrain {s : Sh} {evs : List IEv} (h : TRI k s evs) : TRI k (afterDrain k s).1 (evs ++ popEv k s) := by
+  cases hp : Heap.pop k.ltItem s.heap with
+  | none =>
+    have e1 : afterDrain k s = (s, .ret .none) := by unfold afterDrain; rw [hp]
+    have e2 : popEv k s = [] := by unfold popEv; rw [hp]
+    rw [e1, e2]; simpa using h
+  | some pr =>
+    obtain ⟨x, rest⟩ := pr
+    have e1 : afterDrain k s = ({ s with heap := rest }, .goto (.deq7 x.1)) := by unfold afterDrain; rw [hp]
+    have e2 : popEv k s = [.pop x.1] := by unfold popEv; rw [hp]
+    rw [e1, e2]
+    refine ⟨?_, ?_, ?_⟩
+    · rw [insertedOf_append, pushedOf_append]; simpa [insertedOf, pushedOf] using h.cons
+    · intro hs; rw [insertedOf_append]; simpa [insertedOf] using h.seq hs
+    · rw [insertedOf_append, poppedOf_append]
+      show (rest.map Prod.fst ++ (poppedOf evs ++ [x.1])).Perm (insertedOf evs ++ [])
+      have hperm : (x :: rest).Perm s.heap := GoaktVerif.C04.Heap.pop_perm s.heap x rest hp
+      have h1 : (x.1 :: rest.map Prod.fst).Perm (s.heap.map Prod.fst) := by simpa using hperm.map Prod.fst
+      have h2 : (rest.map Prod.fst ++ (poppedOf evs ++ [x.1])).Perm (x.1 :: rest.map Prod.fst ++ poppedOf evs) := by
+        rw [← List.append_assoc]
+        exact (List.perm_append_comm (l₁ := rest.map Prod.fst ++ poppedOf evs) (l₂ := [x.1]))
+      rw [List.append_nil]
+      exact h2.trans ((h1.append_right _).trans h.heap)
+
+/-- one node of the batch is unlinked and pushed into the heap -/
+theorem tri_move {s : Sh} {evs : List IEv} {n : Nat} (h : TRI k s evs) (hget : s.batch[s.done]? = some n) :
+    TRI k (s.moveToHeap k n) (evs ++ [IEv.ins n]) := by
+  have hdrop := drop_of_get hget
+  refine ⟨?_, ?_, ?_⟩
+  · rw [insertedOf_append, pushedOf_append]
+    show (insertedOf evs ++ insertedOf [IEv.ins n]) ++ s.batch.drop (s.done + 1) ++ s.stack.reverse = pushedOf evs ++ pushedOf [IEv.ins n]
+    simp only [insertedOf, pushedOf, List.append_nil]
+    rw [← h.cons, hdrop]; simp [List.append_assoc]
+  · intro hs
+    rw [insertedOf_append]
+    show (if k.stable then s.seq + 1 else s.seq) = (insertedOf evs ++ insertedOf [IEv.ins n]).length
+    simp only [hs, ↓reduceIte, insertedOf, List.length_append, List.length_cons, List.length_nil]
+    rw [h.seq hs]
+  · rw [insertedOf_append, poppedOf_append]
+    show ((Heap.push k.ltItem s.heap (n, s.seq)).map Prod.fst ++ (poppedOf evs ++ [])).Perm (insertedOf evs ++ [n])
+    have hperm : (Heap.push k.ltItem s.heap (n, s.seq)).Perm ((n, s.seq) :: s.heap) := GoaktVerif.C04.Heap.push_perm s.heap (n, s.seq)
+    have h1 : ((Heap.push k.ltItem s.heap (n, s.seq)).map Prod.fst).Perm (n :: s.heap.map Prod.fst) := by simpa using hperm.map Prod.fst
+    rw [List.append_nil]
+    have h2 : (n :: s.heap.map Prod.fst ++ poppedOf evs).Perm (n :: insertedOf evs) := List.Perm.cons n h.heap
+    have h3 : (n :: insertedOf evs).Perm (insertedOf evs ++ [n]) := (List.perm_append_comm (l₁ := [n]) (l₂ := insertedOf evs))
+    exact ((h1.append_right _).trans h2).trans h3
 
 /-- conservation is preserved by every step of every thread -/
 theorem tri_step (ct tid : Nat) (c : Cf k) (evs : List IEv)
@@ -84,64 +153,55 @@ theorem tri_step (ct tid : Nat) (c : Cf k) (evs : List IEv)
     | some pc =>
       have hJt := hJ tid t ht
       have e1 : (stepCfg c tid).sh = (exec k c.sh pc).1 := by unfold stepCfg; simp [ht, hpc]
-      have e2 : stepEvI c tid = evI c.sh pc := by simp [stepEvI, ht, hpc]
+      have e2 : stepEvI c tid = evI k c.sh pc := by simp [stepEvI, ht, hpc]
       rw [e1, e2]
       cases pc with
       | push3 v old =>
         simp only [exec, evI]
         split
-        · refine ⟨?_, ?_⟩
+        · refine ⟨?_, ?_, ?_⟩
           · rw [insertedOf_append, pushedOf_append]
             show (insertedOf evs ++ insertedOf [IEv.push v]) ++ c.sh.batch.drop c.sh.done ++ (v :: c.sh.stack).reverse = pushedOf evs ++ pushedOf [IEv.push v]
             simp only [insertedOf, pushedOf, List.append_nil, List.reverse_cons]
             rw [← hT.cons]; simp [List.append_assoc]
           · intro hs; rw [insertedOf_append]; simp only [insertedOf, List.append_nil]; exact hT.seq hs
+          · rw [insertedOf_append, poppedOf_append]; simpa [insertedOf, poppedOf] using hT.heap
         · simpa using hT
       | deq2 =>
         have hi : tid = ct := is_consumer hJt hpc rfl
         have hid : c.sh.done = c.sh.batch.length := hJt.idle hi (by rw [hpc]; rfl)
-        simp only [exec, evI, List.append_nil]
+        simp only [exec, evI]
         split
-        · obtain ⟨_, _, f3, f4, f5⟩ := afterDrain_fields (k := k) c.sh
-          exact tri_same hT f3 f4 f5 (afterDrain_seq c.sh)
-        · refine ⟨?_, hT.seq⟩
+        · next hh => rw [if_pos hh]; exact tri_afterDrain hT
+        · next b hb =>
+          rw [if_neg (by rw [hb]; simp), List.append_nil]
+          refine ⟨?_, hT.seq, hT.heap⟩
           show insertedOf evs ++ c.sh.stack.reverse.drop 0 ++ ([] : List Nat).reverse = pushedOf evs
           have := hT.cons
           rw [hid, List.drop_length] at this
           simpa using this
       | deq6 n nxt =>
         obtain ⟨hget, _⟩ := hJt.c6 n nxt hpc
-        have hdrop := drop_of_get hget
-        have base : TRI k (c.sh.moveToHeap k n) (evs ++ [IEv.ins n]) := by
-          refine ⟨?_, ?_⟩
-          · rw [insertedOf_append, pushedOf_append]
-            show (insertedOf evs ++ insertedOf [IEv.ins n]) ++ c.sh.batch.drop (c.sh.done + 1) ++ c.sh.stack.reverse = pushedOf evs ++ pushedOf [IEv.ins n]
-            simp only [insertedOf, pushedOf, List.append_nil]
-            rw [← hT.cons, hdrop]; simp [List.append_assoc]
-          · intro hs
-            rw [insertedOf_append]
-            show (if k.stable then c.sh.seq + 1 else c.sh.seq) = (insertedOf evs ++ insertedOf [IEv.ins n]).length
-            simp only [hs, ↓reduceIte, insertedOf, List.length_append, List.length_cons, List.length_nil]
-            rw [hT.seq hs]
+        have base := tri_move (k := k) hT hget
         simp only [exec, evI]
         cases nxt with
-        | some nx => exact base
+        | some nx => simpa using base
         | none =>
-          obtain ⟨_, _, f3, f4, f5⟩ := afterDrain_fields (k := k) (c.sh.moveToHeap k n)
-          exact tri_same base f3 f4 f5 (afterDrain_seq _)
-      | enqU v => simp only [exec, evI, List.append_nil]; exact tri_same hT rfl rfl rfl rfl
+          have := tri_afterDrain (k := k) base
+          simpa [List.append_assoc] using this
+      | enqU v => simp only [exec, evI, List.append_nil]; exact tri_same hT rfl rfl rfl rfl rfl
       | enqL v => simp only [exec, evI, List.append_nil]; split <;> (try split) <;> exact hT
       | enqC v l =>
         simp only [exec, evI, List.append_nil]; split
-        · exact tri_same hT rfl rfl rfl rfl
+        · exact tri_same hT rfl rfl rfl rfl rfl
         · exact hT
       | push1 v => simpa [exec, evI] using hT
-      | push2 v old => simp only [exec, evI, List.append_nil]; exact tri_same hT rfl rfl rfl rfl
+      | push2 v old => simp only [exec, evI, List.append_nil]; exact tri_same hT rfl rfl rfl rfl rfl
       | deq1 => simp only [exec, evI, List.append_nil]; split <;> exact hT
       | deq3 a b => simpa [exec, evI] using hT
-      | deq4 a b c' => simp only [exec, evI, List.append_nil]; cases c' <;> exact tri_same hT rfl rfl rfl rfl
+      | deq4 a b c' => simp only [exec, evI, List.append_nil]; cases c' <;> exact tri_same hT rfl rfl rfl rfl rfl
       | deq5 a => simpa [exec, evI] using hT
-      | deq7 v => simp only [exec, evI, List.append_nil]; exact tri_same hT rfl rfl rfl rfl
+      | deq7 v => simp only [exec, evI, List.append_nil]; exact tri_same hT rfl rfl rfl rfl rfl
       | len1 => simpa [exec, evI] using hT
       | emp1 => simpa [exec, evI] using hT
 
